@@ -155,13 +155,18 @@ def load(inf, lazy=False):
             # need to find out their names and loop through them to unpack
             # metadata
             data_vars = list(ds.data_vars.keys())
+            stored_names = {}
             for var in data_vars:
+                stored_names[var] = ds[var].attrs.get('name', var)
                 ds[var].attrs = unpack_attrs(ds[var].attrs)
 
             # return either a single DataArray or a DataSet containing
             # multiple DataArrays.
             if len(data_vars)==1:
-                return ds[data_vars[0]]
+                loaded = ds[data_vars[0]]
+                if stored_names[data_vars[0]] != loaded.name:
+                    loaded = loaded.rename(stored_names[data_vars[0]])
+                return loaded
             else:
                 return ds
     except (OSError, ValueError):
@@ -316,6 +321,11 @@ def save(outf, obj):
         if obj.name is None:
             obj.name=os.path.splitext(os.path.split(outf)[-1])[0]
         obj.attrs = pack_attrs(obj)
+        # a dataset cannot hold a variable called like one of its own
+        # coordinates (an image loaded from x.png): the variable gets a
+        # neutral name, load() restores the one kept in the attributes
+        while obj.name in obj.coords or obj.name in obj.dims:
+            obj.name = '_' + obj.name
         ds = obj.to_dataset()
         ds.to_netcdf(default_extension(outf), engine='h5netcdf')
     else:
